@@ -269,7 +269,7 @@ def build_histories(ctx, base, wb):
         else:
             fixed.append(("types-sequence", [T({"enable_serialization_asserts": True, "cast_format": "static_cast<{type}>({value})"}), T({}),
                                              T({"enable_serialization_asserts": True})]))
-        nrand = 3 if ctx.quick else 12
+        nrand = 3 if ctx.quick else 40
         for _ in range(nrand):
             steps, live, runs = [], [], 0
             while runs < rng.choice([3, 3, 4]):
